@@ -416,32 +416,32 @@ func init() {
 
 // curated edge cases
 var tcCurated = []string{
-	"4k3/8/8/8/8/8/8/4K3 w - - 0 1",                                 // bare kings
-	"4k3/8/8/8/8/8/8/4K3 b - - 0 1",                                 //
-	"4k3/8/8/8/8/8/PPPPPPPP/RNBQKBNR w KQ - 0 1",                    // one side only a king
-	"rnbqkbnr/pppppppp/8/8/8/8/8/4K3 w kq - 0 1",                    //
-	"7k/5Q2/6K1/8/8/8/8/8 b - - 0 1",                                // stalemate
-	"7k/5Q2/6K1/8/8/8/8/8 w - - 0 1",                                //
-	"7k/6Q1/6K1/8/8/8/8/8 b - - 0 1",                                // mate
-	"k7/2Q5/8/8/8/8/8/K7 w - - 0 1",                                 // mate threats
-	"6k1/5ppp/8/8/8/8/8/R3K2R w KQ - 0 1",                           // back-rank mate threat and castling
-	"QQQQQQ2/8/8/8/8/8/k7/4K3 w - - 0 1",                            // many queens
-	"QQQ4k/QQQ5/8/8/8/8/8/K7 w - - 0 1",                             //
-	"qqqq4/qqqq4/8/8/8/8/7P/K6k b - - 0 1",                          //
-	"8/P7/8/8/8/8/7p/k6K w - - 0 1",                                 // promotions
-	"n1n5/PPPk4/8/8/8/8/4Kppp/5N1N b - - 0 1",                       //
-	"8/8/8/2k5/3Pp3/8/8/4K3 b - d3 0 1",                             // en passant
-	"r3k2r/8/8/8/8/8/8/R3K2R w KQkq - 0 1",                          // castling
-	"r3k2r/pppppppp/8/8/8/8/PPPPPPPP/R3K2R w KQkq - 0 1",            //
-	"8/8/8/8/8/1k6/p7/K7 w - - 0 1",                                 // squeezed king
-	"k7/8/1K6/8/8/8/8/7Q b - - 0 1",                                 //
-	"K7/2q5/8/8/8/8/8/k7 b - - 0 1",                                 //
-	"1r4k1/8/3p4/8/4P3/8/7r/K7 w - - 0 1",                           //
-	"8/8/8/8/8/8/8/8 w - - 0 1",                                     // no pieces at all (not a chess position: totality)
-	"8/8/8/8/8/8/8/R7 w - - 0 1",                                    // no kings
-	"4k3/8/8/8/8/8/8/R7 w - - 0 1",                                  // white has no king
-	"P3k3/8/8/8/8/8/8/p3K3 w - - 0 1",                               // pawns on the last ranks (ranks advanced = 6, uint8)
-	"p3k3/8/8/8/8/8/8/P3K3 w - - 0 1",                               // pawns on their own back ranks: Rank1-Rank2 wraps to 255 in uint8
+	"4k3/8/8/8/8/8/8/4K3 w - - 0 1",                      // bare kings
+	"4k3/8/8/8/8/8/8/4K3 b - - 0 1",                      //
+	"4k3/8/8/8/8/8/PPPPPPPP/RNBQKBNR w KQ - 0 1",         // one side only a king
+	"rnbqkbnr/pppppppp/8/8/8/8/8/4K3 w kq - 0 1",         //
+	"7k/5Q2/6K1/8/8/8/8/8 b - - 0 1",                     // stalemate
+	"7k/5Q2/6K1/8/8/8/8/8 w - - 0 1",                     //
+	"7k/6Q1/6K1/8/8/8/8/8 b - - 0 1",                     // mate
+	"k7/2Q5/8/8/8/8/8/K7 w - - 0 1",                      // mate threats
+	"6k1/5ppp/8/8/8/8/8/R3K2R w KQ - 0 1",                // back-rank mate threat and castling
+	"QQQQQQ2/8/8/8/8/8/k7/4K3 w - - 0 1",                 // many queens
+	"QQQ4k/QQQ5/8/8/8/8/8/K7 w - - 0 1",                  //
+	"qqqq4/qqqq4/8/8/8/8/7P/K6k b - - 0 1",               //
+	"8/P7/8/8/8/8/7p/k6K w - - 0 1",                      // promotions
+	"n1n5/PPPk4/8/8/8/8/4Kppp/5N1N b - - 0 1",            //
+	"8/8/8/2k5/3Pp3/8/8/4K3 b - d3 0 1",                  // en passant
+	"r3k2r/8/8/8/8/8/8/R3K2R w KQkq - 0 1",               // castling
+	"r3k2r/pppppppp/8/8/8/8/PPPPPPPP/R3K2R w KQkq - 0 1", //
+	"8/8/8/8/8/1k6/p7/K7 w - - 0 1",                      // squeezed king
+	"k7/8/1K6/8/8/8/8/7Q b - - 0 1",                      //
+	"K7/2q5/8/8/8/8/8/k7 b - - 0 1",                      //
+	"1r4k1/8/3p4/8/4P3/8/7r/K7 w - - 0 1",                //
+	"8/8/8/8/8/8/8/8 w - - 0 1",                          // no pieces at all (not a chess position: totality)
+	"8/8/8/8/8/8/8/R7 w - - 0 1",                         // no kings
+	"4k3/8/8/8/8/8/8/R7 w - - 0 1",                       // white has no king
+	"P3k3/8/8/8/8/8/8/p3K3 w - - 0 1",                    // pawns on the last ranks (ranks advanced = 6, uint8)
+	"p3k3/8/8/8/8/8/8/P3K3 w - - 0 1",                    // pawns on their own back ranks: Rank1-Rank2 wraps to 255 in uint8
 	"r1bqkbnr/pppp1ppp/2n5/1B2p3/4P3/5N2/PPPP1PPP/RNBQK2R b KQkq - 3 3",
 }
 
@@ -455,8 +455,8 @@ var tcLines = [][2]string{
 	{fen.Initial, "e2e4 e7e6 e4e5 d7d5 e5d6"},
 	{fen.Initial, "e2e4 e7e6 e4e5 d7d5 e5d6 c7d6"},
 	{fen.Initial, "d2d4 d7d5 c2c4 d5c4 e2e3 b7b5 a2a4 c7c6 a4b5 c6b5 d1f3"},
-	{fen.Initial, "f2f3 e7e5 g2g4"},        // fool's mate threat
-	{fen.Initial, "f2f3 e7e5 g2g4 d8h4"},   // mated
+	{fen.Initial, "f2f3 e7e5 g2g4"},                // fool's mate threat
+	{fen.Initial, "f2f3 e7e5 g2g4 d8h4"},           // mated
 	{fen.Initial, "e2e4 e7e5 d1h5 b8c6 f1c4 g8f6"}, // scholar's mate available
 	{"r3k2r/pppq1ppp/2npbn2/2b1p3/2B1P3/2NPBN2/PPPQ1PPP/R3K2R w KQkq - 0 1", "e1c1 e8c8"},
 	{"r3k2r/pppq1ppp/2npbn2/2b1p3/2B1P3/2NPBN2/PPPQ1PPP/R3K2R w KQkq - 0 1", "e1g1 e8c8 c4e6 d7e6"},
